@@ -93,19 +93,21 @@ pub(crate) mod verif_e {
     }
 
     /// E3: validate_next_tx accepts exactly: idx = count, and (count = 0 or same timestamp and
-    /// hash), and neither the number nor the hash is known.
-    #[kani::proof]
-    fn e3_validate_next_tx() {
+    /// hash), and the block is unknown. One instance per "is the block known" case (a symbolic
+    /// case flag puts the 32-byte row decoding under a symbolic guard and did not finish).
+    fn validate_case(known: u8) {
         let mut db = Brc20ProgDatabase::verif_model_blocks_only(None);
         let count: u64 = kani::any();
         let ts: u64 = kani::any();
         // hashes: only (in)equality matters; concrete values keep the 32-byte comparisons and
         // key encodings constant for the solver
         let h: [u8; 32] = [7u8; 32];
-        let number_known: bool = kani::any();
         let bn: u64 = 20;
-        if number_known {
-            db.verif_plant_block_hash(bn);
+        if known == 1 {
+            db.verif_cache_block_hash(bn, [9u8; 32]); // number known (uncommitted block)
+        }
+        if known == 2 {
+            db.verif_cache_block_number([8u8; 32], 5); // the hash [8;32] is known
         }
         let e = engine(db, lbi(count, ts, B256::from(h)));
         let idx: u64 = kani::any();
@@ -113,13 +115,26 @@ pub(crate) mod verif_e {
         let same_hash: bool = kani::any();
         let h2: [u8; 32] = if same_hash { [7u8; 32] } else { [8u8; 32] };
         let r = e.validate_next_tx(idx, B256::from(h2), bn, ts2);
-        let ok = idx == count && (count == 0 || (ts == ts2 && h == h2)) && !number_known;
+        let block_known = known == 1 || (known == 2 && !same_hash);
+        let ok = idx == count && (count == 0 || (ts == ts2 && same_hash)) && !block_known;
         assert!(r.is_ok() == ok);
         assert!(e.db.verif_lock_writes() == 0 && e.last_block_info.verif_lock_writes() == 0);
-        kani::cover!(ok && count != 0);
-        kani::cover!(!ok && idx == count);
+        kani::cover!(r.is_ok());
+        kani::cover!(r.is_err() && idx == count);
         core::mem::forget(r);
         core::mem::forget(e);
+    }
+    #[kani::proof]
+    fn e3_validate_next_tx_unknown_block() {
+        validate_case(0);
+    }
+    #[kani::proof]
+    fn e3_validate_next_tx_known_number() {
+        validate_case(1);
+    }
+    #[kani::proof]
+    fn e3_validate_next_tx_known_hash() {
+        validate_case(2);
     }
 
     /// E7: the server-generated block hash is never the zero hash (zero means "generate one").
